@@ -265,6 +265,27 @@ theorem C02_matmul_kernel_is_transpose_right [AddLaws S] [MulLaws S] [CommLaws S
       = sumRange k (fun t => sumRange n (fun j => B t j * sumRange m (fun r => A r t * X r j))) :=
   matmul_kernel_adjoint_right m k n A B X
 
+/-- **`matmul` of two matrices: the left closure is the transpose of the forward map.**  Forward (C05,
+    `matmul_spec_none`): `specMatmul a false b false none`.  Left closure (`linEntry_matmul_left` with the flags
+    the code passes for an untransposed pair): `specMatmul x false b true none`.  For every well-formed
+    `a : [m,k]`, every `b : [k,n]` and every delta `x : [m,n]`, over a commutative ring: `⟨a·b, x⟩ = ⟨a, x·bᵀ⟩`.
+    PARTIAL: rank-2 operands, untransposed flags; batch dimensions and the other three flag pairs rest on the
+    kernel identity (`C02_matmul_kernel_is_transpose_*`) plus index bookkeeping not yet done. -/
+theorem C02_matmul2d_left_closure_is_transpose [AddLaws S] [MulLaws S] [CommLaws S] (a b x : Tensor S) (m k n : Nat)
+    (ha : a.dims = [m, k]) (hb : b.dims = [k, n]) (hx : x.dims = [m, n]) (hwa : a.WF) (hwx : x.WF) :
+    dot (specMatmul a false b false none).vals x.vals = dot a.vals (specMatmul x false b true none).vals :=
+  matmul2d_adjoint_left a b x m k n ha hb hx hwa hwx
+
+/-- **right closure**: `⟨a·b, x⟩ = ⟨b, aᵀ·x⟩` with the closure's product `specMatmul a true x false none`. -/
+theorem C02_matmul2d_right_closure_is_transpose [AddLaws S] [MulLaws S] [CommLaws S] (a b x : Tensor S) (m k n : Nat)
+    (ha : a.dims = [m, k]) (hb : b.dims = [k, n]) (hx : x.dims = [m, n]) (hwb : b.WF) (hwx : x.WF) :
+    dot (specMatmul a false b false none).vals x.vals = dot b.vals (specMatmul a true x false none).vals :=
+  matmul2d_adjoint_right a b x m k n ha hb hx hwb hwx
+
+/-- non-vacuity: a 2×3 by 3×2 product with a 2×2 delta meets the hypotheses -/
+example : (⟨[2, 3], [1, 2, 3, 4, 5, 6]⟩ : Tensor ℝ).WF ∧ (⟨[2, 2], [1, 0, 0, 1]⟩ : Tensor ℝ).WF := by
+  refine ⟨⟨?_, ?_⟩, ⟨?_, ?_⟩⟩ <;> simp [prod]
+
 end Corgi
 
 #print axioms Corgi.exHeap_shapeOK
@@ -272,3 +293,5 @@ end Corgi
 #print axioms Corgi.C02_reshape_closure_is_transpose
 #print axioms Corgi.C02_matmul_kernel_is_transpose_left
 #print axioms Corgi.C02_matmul_kernel_is_transpose_right
+#print axioms Corgi.C02_matmul2d_left_closure_is_transpose
+#print axioms Corgi.C02_matmul2d_right_closure_is_transpose
